@@ -80,6 +80,45 @@ def run(ck):
           "(cursor idiom next(it) excepted)")
 
 
+_EFP_CACHE = {}
+
+
+def _empty_fast_path_is_equivalent(ck, fn, node, subject) -> bool:
+    """The branch at `node` tests whether the row list `subject` is empty. It is harmless when, for every path on which the list is
+    empty, what is returned and what is handed to saveAdditionalOutput equals what a path of the general branch returns / saves
+    once the list is replaced by [] (`if not joined: return sorted(first)` in front of `return sorted(joined + [r for r in first if
+    r.id not in [j.id for j in joined]])`). Anything that does not reduce to equality keeps the report."""
+    key = (id(ck.ctx), fn.qualname)
+    if key not in _EFP_CACHE:
+        _EFP_CACHE[key] = [pa for pa in explore(ck, fn, unroll=(0, 1)) if pa.outcome in ("return", "fall")]
+    paths = _EFP_CACHE[key]
+
+    def summary(pa, subst):
+        val = pa.value if pa.value is not None else T.NONE
+        saves = tuple(e.term for e in pa.events if e.kind == "call" and e.term[0] == "app" and e.term[1].endswith(".saveAdditionalOutput"))
+        out = []
+        for t in (val,) + saves:
+            if subst:
+                t = T.substitute(t, {subject: ("list", ())})
+            out.append(T.simplify_for_empty(t))
+        return tuple(out)
+    empty_side, general_side = [], []
+    for pa in paths:
+        here = [(c, tv) for c, tv, n0 in pa.state.assumptions if n0 is node]
+        if not here:
+            continue
+        c, tv = here[0]
+        c0, pos = T.positive(T.as_bool(c))
+        if c0 != subject:
+            return False
+        truthy = tv if pos else (not tv)
+        (general_side if truthy else empty_side).append(pa)
+    if not empty_side or not general_side:
+        return False
+    general = {summary(pa, True) for pa in general_side}
+    return all(summary(pa, False) in general for pa in empty_side)
+
+
 def run_global_conditions(ck):
     """C10.10: in the coordinators' execute, no branch is taken on a property of a whole-run row list (is the list of all
     second-pass rows empty? how many rows are there?): such a test makes what is written for one molecule depend on whether
@@ -108,12 +147,27 @@ def run_global_conditions(ck):
                         y[0] == "app" and y[1].endswith(producers) for y in T.subterms(x))]
                     if lens:
                         subject = lens[0]
+                if subject is not None and subject[0] != "call" and _empty_fast_path_is_equivalent(ck, fn, node, c0):
+                    continue                  # `if not rows: return <what the general code gives for no rows>`
                 if subject is not None and (id(node), T.show(subject)[:80]) not in seen:
                     seen.add((id(node), T.show(subject)[:80]))
                     ck.violation("C10.10", short(fn) + ":run-global-test", where(fn, node),
                                  "a branch is taken on a whole-run list of rows: the record (or file) a molecule ends up in depends on "
                                  "whether the *other* molecules of the run produced rows", found=T.show(c)[:200],
                                  required="per-row / per-query decisions only")
+    # `rows or <something else>`: the same decision written as a value
+    for fn in fns:
+        for pa in explore(ck, fn, unroll=(0, 1)):
+            for t, facts, node, kind in path_terms(pa):
+                for x in T.subterms(t):
+                    if x[0] == "orelse" and len(x[1]) == 2 and x[1][1] != ("list", ()) and any(
+                            y[0] == "app" and y[1].endswith(producers) for y in T.subterms(x[1][0])) and \
+                            x[1][0][0] in ("app", "call", "comp", "concat", "idx") and (id(node), "orelse") not in seen:
+                        seen.add((id(node), "orelse"))
+                        ck.violation("C10.10", short(fn) + ":run-global-test", where(fn, node),
+                                     "a whole-run list of rows is replaced by another one when it is empty (`rows or other`): what a "
+                                     "molecule's record is written to depends on whether any *other* molecule produced a row of that kind",
+                                     found=T.show(x)[:200], required="per-row / per-query decisions only")
     ck.floor("C10.10 coordinator paths examined", n, 5)
     if not seen:
         ck.ok("C10.10", "coordinators", fns[0].where, f"{n} paths of the coordinators' execute methods: no test on a whole-run row list")
